@@ -155,6 +155,12 @@ def batch(ctx, n, salt, sl):
         except Exception as e:
             import traceback
 
+            from ..common import is_env_crash
+
+            if is_env_crash(e):
+                sl.skipped += 1
+                sl.count("skipped:third-party-library-raised:" + type(e).__name__)
+                continue
             sl.violations.append({"signature": "C19/run-crashed", "detail": f"{type(e).__name__}: {e} {traceback.format_exc()[-500:]}", "replay": {"spec": spec}})
         d = R.describe(spec)
         sl.count("engines:" + ">".join(d["engines"]))
